@@ -172,6 +172,22 @@ class ConstEval:
                   "abs": abs, "min": min, "max": max}[fn](*vals)
         except Exception as ex:
           raise NotConst(str(ex))
+      if isinstance(e.func, ast.Attribute) and e.func.attr in ("join", "lower", "upper", "strip", "get") and not e.keywords:
+        try:
+          recv = self._ev(m, e.func.value, cls, env)
+          vals = [self._ev(m, a, cls, env) for a in args]
+        except NotConst:
+          recv = vals = None
+        if isinstance(recv, str) and vals is not None and not any(isinstance(v, (Sym, EnumMember)) for v in vals):
+          if e.func.attr == "join" and len(vals) == 1 and all(isinstance(x, str) for x in vals[0]):
+            return recv.join(vals[0])
+          if e.func.attr in ("lower", "upper", "strip") and not vals:
+            return getattr(recv, e.func.attr)()
+        if isinstance(recv, dict) and e.func.attr == "get" and vals is not None and 1 <= len(vals) <= 2:
+          try:
+            return recv.get(*vals)
+          except TypeError as ex:
+            raise NotConst(str(ex))
       if self.symbolic_ok:
         return Sym(ast.unparse(e))
       raise NotConst("call")
